@@ -245,7 +245,8 @@ def merge_stats(results):
 # --------------------------------------------------------------------------- evidence / exit protocol
 
 def write_evidence(prop, tier, seed, t0, coverage, assumptions, violations, extra=None):
-    os.makedirs(os.path.join(VERIF, 'evidence'), exist_ok=True)
+    evdir = os.environ.get('VERIF_EVIDENCE_DIR') or os.path.join(VERIF, 'evidence')
+    os.makedirs(evdir, exist_ok=True)
     ev = {
         'property_id': prop,
         'tier': tier,
@@ -258,7 +259,7 @@ def write_evidence(prop, tier, seed, t0, coverage, assumptions, violations, extr
     }
     if extra:
         ev.update(extra)
-    path = os.path.join(VERIF, 'evidence', prop + '.json')
+    path = os.path.join(evdir, prop + '.json')
     tmp = path + '.tmp'
     with open(tmp, 'w') as f:
         json.dump(ev, f, indent=1, sort_keys=True, default=str)
